@@ -554,6 +554,13 @@ func (z *zfn) inlineAffine(call *ssa.Call, callee *ssa.Function) (lin, bool) {
 					return a.plus(b, -1), true
 				}
 			}
+		case *ssa.Convert:
+			// widening (or same-width, non-negative) conversions of lengths keep the value
+			if fb, fs, ok1 := z.intBits(x.X.Type()); ok1 {
+				if tb, _, ok2 := z.intBits(x.Type()); ok2 && tb >= fb && fs {
+					return eval(x.X, d+1)
+				}
+			}
 		case *ssa.Call:
 			bn := builtinName(&x.Call)
 			if bn == "len" || bn == "cap" {
